@@ -24,6 +24,8 @@
 namespace vf
 {
 
+typedef long double LD;
+
 // ------------------------------------------------------------------------------------------------
 // deterministic PRNG for the harness' own choices (never used by the library under test)
 // ------------------------------------------------------------------------------------------------
